@@ -117,6 +117,18 @@ Fixpoint indexed {A} (i : N) (l : list A) : list (N * A) :=
   | x :: xs => (i, x) :: indexed (i + 1) xs
   end.
 
+(** the label under which the leaves below a fragment are listed: the lower-cased name of the Go
+    field that holds the fragment, without the underscores the generator may have appended to make
+    the field name unique (= the lower-cased type condition / fragment name, without trailing
+    underscores) *)
+Fixpoint strip_us_rev (r : bytes) : bytes :=
+  match r with
+  | c :: r' => if (c =? 95)%N then strip_us_rev r' else r
+  | [] => []
+  end.
+Definition strip_us (l : bytes) : bytes := rev (strip_us_rev (rev l)).
+Definition frag_label (n : bytes) : bytes := strip_us (lower_bytes n).
+
 (** the (path, leaf) pairs of a decoded value, as the decode program's reflection walk lists them *)
 Fixpoint leaves (v : goval) : list (path * leaf) :=
   match v with
@@ -143,7 +155,7 @@ Fixpoint leaves (v : goval) : list (path * leaf) :=
               | TagDash | TagBoth _ =>
                   match x with
                   | VNil => []
-                  | _ => prefix (PFrag (lower_bytes n)) (leaves x)
+                  | _ => prefix (PFrag (frag_label n)) (leaves x)
                   end
               | TagKey k => prefix (PKey (lower_bytes k)) (leaves x)
               | TagNone => prefix (PKey (lower_bytes n)) (leaves x)
